@@ -15,7 +15,7 @@ from . import tlaval, tlc
 
 # repairs present in /repo (fix: commits); the specification's clause for each is switched on.
 # F14: the include test of PortNamespace.absorb matches whole path components.
-FIXES = []
+FIXES = ['F14']
 
 DEVIATION_IDS = ['D14']     # deviation clauses Expose.tla can record (as-written include test)
 
@@ -248,7 +248,11 @@ def universe(tier, seed):
                     rot += 1
                     d = rot % nd
                     o = (rot // nd + ni + k) % len(OPTS)
-                    ctxs.append({'t': t, 'd': d + 1 + (nd if io == 'out' else 0), 'ns': nsp, 'o': o + 1, 'io': io, 'rs': 'all'})
+                    # a combination the call refuses whatever the rules are (target name taken by a leaf port, unknown option
+                    # key) gets the few rule sets only
+                    refusing = 'bogus' in OPTS[o] or (d == 3 and ni > 0) or (d == 4 and ni == 2)
+                    ctxs.append({'t': t, 'd': d + 1 + (nd if io == 'out' else 0), 'ns': nsp, 'o': o + 1, 'io': io,
+                                 'rs': 'few' if refusing else 'all'})
     # block B
     cand = [i for i, tr in enumerate(trees) if len(paths_of(tr)) >= 3 and any(p['kind'] == 'ns' and p['ports'] for p in tr['ports'])]
     rng.shuffle(cand)
@@ -304,10 +308,16 @@ def mc_module(name, uni, fixes_, accepted, invariants):
 def run_tlc(uni, fixes_, accepted, invariants, name='MC_Expose', timeout=3000):
     """-> (tlc result, raw instance lines).  A line is the TLA+ text of Line(I, r) (see parse_line)."""
     tla, cfg = mc_module(name, uni, fixes_, accepted, invariants)
-    with tlc.Workdir() as wd:
-        wd.write(name + '.tla', tla)
-        wd.write(name + '.cfg', cfg)
-        res = tlc.run(wd, name + '.tla', name + '.cfg', timeout=timeout)
+    for attempt in (1, 2):
+        with tlc.Workdir() as wd:
+            wd.write(name + '.tla', tla)
+            wd.write(name + '.cfg', cfg)
+            res = tlc.run(wd, name + '.tla', name + '.cfg', timeout=timeout)
+        if res.ok or res.violated:
+            break
+        # the JVM ended without a verdict (killed from outside, out of memory, ...): one more try, then a machinery failure
+        if attempt == 2:
+            raise tlc.MachineryError('TLC ended without a verdict on %s (exit code %s):\n%s' % (name, res.rc, res.out[-2000:]))
     lines = [ln[1:-1].replace('\\"', '"') for ln in res.out.splitlines() if ln.startswith('"<<\\"C15\\"')]
     return res, lines
 
